@@ -92,6 +92,8 @@ type Case struct {
 	Opts   Opts   `json:"opts"`
 	// BodyDiv (HTML): all blocks stand inside one <div> (1) or <section><div> (2)
 	BodyDiv int `json:"body_div,omitempty"`
+	// NestWrap (HTML): every nested list stands inside a wrapper within its item - 1: <div>, 2: <blockquote>
+	NestWrap int `json:"nest_wrap,omitempty"`
 }
 
 func (o Opts) rag() rag.MarkdownOptions {
@@ -222,12 +224,18 @@ func howOf(b Blk) string {
 func htmlOf(c Case) string {
 	open := []string{"", "<div class=\"content\">", "<section><div>"}[c.BodyDiv]
 	end := []string{"", "</div>", "</div></section>"}[c.BodyDiv]
-	return "<!DOCTYPE html>\n<html><head><title>Title of the document</title></head><body>\n" + open + htmlBody(c.Blocks) + end + "</body></html>\n"
+	return "<!DOCTYPE html>\n<html><head><title>Title of the document</title></head><body>\n" + open + htmlBodyNested(c.Blocks, c.NestWrap) + end + "</body></html>\n"
 }
 
 // htmlBody writes blocks as flow content that is well-formed both as HTML and as XHTML.
-func htmlBody(blocks []Blk) string {
+func htmlBody(blocks []Blk) string { return htmlBodyNested(blocks, 0) }
+
+// htmlBodyNested: nestWrap != 0 puts every nested list into a wrapper inside its item - 1: <div>, 2: <blockquote>
+func htmlBodyNested(blocks []Blk, nestWrap int) string {
 	var b strings.Builder
+	var wraps []int // per open list: the wrapper it stands in
+	wrapOpen := []string{"", "<div>", "<blockquote>"}
+	wrapClose := []string{"", "</div>", "</blockquote>"}
 	esc := func(s string) string { return strings.ReplaceAll(html.EscapeString(s), "\n", "<br/>") }
 	open := []bool{} // stack of open lists (ordered?)
 	closeTo := func(depth int) {
@@ -237,7 +245,8 @@ func htmlBody(blocks []Blk) string {
 			} else {
 				b.WriteString("</li></ul>")
 			}
-			open = open[:len(open)-1]
+			b.WriteString(wrapClose[wraps[len(wraps)-1]])
+			open, wraps = open[:len(open)-1], wraps[:len(wraps)-1]
 		}
 	}
 	for _, blk := range blocks {
@@ -268,23 +277,33 @@ func htmlBody(blocks []Blk) string {
 			case len(open) == want:
 				if open[len(open)-1] != blk.Ordered {
 					closeTo(want - 1)
+					w := 0
+					if len(open) > 0 {
+						w = nestWrap
+					}
+					b.WriteString(wrapOpen[w])
 					if blk.Ordered {
 						b.WriteString("<ol><li>")
 					} else {
 						b.WriteString("<ul><li>")
 					}
-					open = append(open, blk.Ordered)
+					open, wraps = append(open, blk.Ordered), append(wraps, w)
 				} else {
 					b.WriteString("</li><li>")
 				}
 			default:
 				for len(open) < want {
+					w := 0
+					if len(open) > 0 {
+						w = nestWrap
+					}
+					b.WriteString(wrapOpen[w])
 					if blk.Ordered {
 						b.WriteString("<ol><li>")
 					} else {
 						b.WriteString("<ul><li>")
 					}
-					open = append(open, blk.Ordered)
+					open, wraps = append(open, blk.Ordered), append(wraps, w)
 				}
 			}
 			if f := strings.Fields(blk.Text); blk.Bare == 4 && len(f) == 3 {
@@ -882,6 +901,9 @@ func genCase(t *rapid.T) Case {
 	if c.Target == "html" && rapid.IntRange(0, 2).Draw(t, "bodyDiv") == 0 {
 		c.BodyDiv = rapid.IntRange(1, 2).Draw(t, "bodyDivKind")
 	}
+	if c.Target == "html" && rapid.IntRange(0, 2).Draw(t, "nestWrap") == 0 {
+		c.NestWrap = rapid.IntRange(1, 2).Draw(t, "nestWrapKind")
+	}
 	return c
 }
 
@@ -895,6 +917,9 @@ func minInt(a, b int) int {
 func meta(c Case) vr.Meta {
 	js, _ := json.Marshal(c)
 	labels := []string{"target:" + c.Target}
+	if c.NestWrap > 0 {
+		labels = append(labels, fmt.Sprintf("nested-lists-in-wrapper:%d", c.NestWrap))
+	}
 	nt := false
 	titles := map[string]bool{}
 	for _, b := range c.Blocks {
